@@ -1,12 +1,17 @@
 /-
   C17 — the sandbox never hands out private or internal attributes (decision logic).
 
-  Over `Gen/Sandbox.lean` (READ from sandbox.py every run).
+  Over `Gen/Sandbox.lean` (decision functions) and `Gen/AccessPaths.lean` (the whole bodies of
+  SandboxedEnvironment.getitem / getattr / unsafe_undefined / wrap_str_format, SandboxedFormatter.get_field and of the
+  base Environment.getitem / getattr a `super()` call reaches) — both READ from the source every run.
 -/
 import JinjaV.Gen.Sandbox
+import JinjaV.Gen.AccessPaths
+import JinjaV.Model.AccessCheck
+import JinjaV.Lemmas.AccessPaths
 
 namespace JinjaV.C17
-open JinjaV.Gen.Sandbox
+open JinjaV.Gen.Sandbox JinjaV.Gen.AccessPaths JinjaV.AccessCheck
 
 /-- what the sandbox admits does not start with an underscore and is not internal -/
 theorem safe_attr_decision (o : Obj) (attr : String) (h : Sandboxed_is_safe_attribute o attr = true) :
@@ -45,6 +50,99 @@ theorem immutable_at_least_as_strict (o : Obj) (attr : String)
   unfold Immutable_is_safe_attribute at h
   apply safe_attr_decision
   cases hs : Sandboxed_is_safe_attribute o attr <;> simp_all
+
+/-! ### the lookup methods: no path reaches the raw attribute without `is_safe_attribute`
+
+`World` fixes the kind of the argument (exact `str`, `str` subclass such as Markup, `int`, other), the outcome of
+`obj[argument]` and of `getattr(obj, name)` (ok / TypeError / KeyError / IndexError / AttributeError / other), whether
+the value is a `str.format` method and what `is_safe_attribute` answers.  The functions are the regenerated bodies, with
+every early return, type test and `super()` delegation; the statements are checked by evaluation on all 576 worlds. -/
+
+/-- subscript: for every kind of argument and every way the two primitive lookups can end, `getitem` hands out the
+attribute value as it is only if `is_safe_attribute` said yes and the value is not a format method -/
+theorem getitem_checked (w : World) (h : Sandboxed_getitem w = .rawAttr) :
+    w.safeAttr = true ∧ w.isFormat = false := by
+  have hall : allWorlds.all (checked Sandboxed_getitem) = true := by decide +kernel
+  have := forall_of_all hall w
+  simpa [checked, h] using this
+
+/-- attribute syntax, `|attr`, format field `.name`: the same for `getattr` -/
+theorem getattr_checked (w : World) (h : Sandboxed_getattr w = .rawAttr) :
+    w.safeAttr = true ∧ w.isFormat = false := by
+  have hall : allWorlds.all (checked Sandboxed_getattr) = true := by decide +kernel
+  have := forall_of_all hall w
+  simpa [checked, h] using this
+
+/-- an attribute that exists, is not safe and is not a format method is answered with `unsafe_undefined` — for an
+exact `str` name and for a `str` subclass (Markup) name alike — whenever the item lookup fails with a type or lookup
+error (getitem) resp. always (getattr); and `unsafe_undefined` raises SecurityError on use -/
+theorem unsafe_attr_refused (w : World) (hs : w.arg.isStr = true) (ha : w.attr = .ok)
+    (hf : w.isFormat = false) (hu : w.safeAttr = false) :
+    Sandboxed_getattr w = .unsafeUndefined ∧
+    (w.item ∈ [.err .typeError, .err .keyError, .err .indexError] → Sandboxed_getitem w = .unsafeUndefined) ∧
+    unsafeUndefinedExc = "SecurityError" := by
+  have hall : allWorlds.all (fun w => !(w.arg.isStr && w.attr == .ok && !w.isFormat && !w.safeAttr) ||
+      (Sandboxed_getattr w == .unsafeUndefined &&
+       (!([OpRes.err .typeError, .err .keyError, .err .indexError].contains w.item) ||
+          Sandboxed_getitem w == .unsafeUndefined))) = true := by decide +kernel
+  have := forall_of_all hall w
+  simp [hs, ha, hf, hu] at this
+  refine ⟨this.1, ?_, by decide⟩
+  intro hm
+  rcases this.2 with h | h
+  · simp at hm
+    rcases hm with hm | hm | hm <;> simp [hm] at h
+  · exact h
+
+/-- end to end, default sandbox: whatever `getitem`/`getattr` hand out as a raw attribute value of object `o` under name
+`attr` neither starts with an underscore nor is an internal attribute -/
+theorem access_sound (o : Obj) (attr : String) (w : World)
+    (hw : w.safeAttr = Sandboxed_is_safe_attribute o attr)
+    (h : Sandboxed_getitem w = .rawAttr ∨ Sandboxed_getattr w = .rawAttr) :
+    attr.startsWith "_" = false ∧ isInternalAttribute o attr = false := by
+  apply safe_attr_decision
+  rcases h with h | h
+  · rw [← hw]; exact (getitem_checked w h).1
+  · rw [← hw]; exact (getattr_checked w h).1
+
+/-- the same for the immutable sandbox (it inherits both methods; the translator checks that it overrides neither) -/
+theorem access_sound_immutable (o : Obj) (attr : String) (w : World)
+    (hw : w.safeAttr = Immutable_is_safe_attribute o attr)
+    (h : Sandboxed_getitem w = .rawAttr ∨ Sandboxed_getattr w = .rawAttr) :
+    attr.startsWith "_" = false ∧ isInternalAttribute o attr = false := by
+  apply immutable_at_least_as_strict
+  rcases h with h | h
+  · rw [← hw]; exact (getitem_checked w h).1
+  · rw [← hw]; exact (getattr_checked w h).1
+
+/-- every bound `format` / `format_map` method of a string (builtin or Python-level, e.g. Markup.format) is wrapped -/
+theorem format_methods_wrapped (value : Obj) (name : String)
+    (hv : value.isa "types.MethodType" = true ∨ value.isa "types.BuiltinMethodType" = true)
+    (hn : name = "format" ∨ name = "format_map") : wrapReturnsNone value name true = false := by
+  rcases hn with rfl | rfl <;> rcases hv with h | h <;> simp [wrapReturnsNone, h]
+
+/-- the wrapper formats through a sandboxed formatter and never through the method it replaces; every step of a field
+path (`.name`, `[key]`) is resolved by the environment's `getattr` / `getitem` -/
+theorem format_fields_sandboxed :
+    wrapReturnsWrapper = true ∧ wrapperReferencesRawMethod = false ∧ wrapperCalls.contains "formatter.vformat" = true ∧
+    wrapFormatterClasses ≠ [] ∧
+    (∀ c ∈ wrapFormatterClasses, ∃ row ∈ formatterClasses, row.1 = c ∧
+        (c = "SandboxedFormatter" ∨ (row.2.1.head? = some "SandboxedFormatter" ∧ row.2.2.contains "get_field" = false))) ∧
+    (∃ row ∈ formatterClasses, row.1 = "SandboxedFormatter" ∧ row.2.2.contains "get_field" = true) ∧
+    getFieldSteps ≠ [] ∧
+    (∀ s ∈ getFieldSteps, (s.1 = "attr" ∧ s.2 = formatterEnvField ++ ".getattr") ∨
+                          (s.1 = "item" ∧ s.2 = formatterEnvField ++ ".getitem")) := by
+  decide +kernel
+
+-- non-vacuity: public attributes are handed out, also under a Markup name; the unsandboxed base methods a `super()`
+-- call would reach do hand out unsafe attributes (so a delegation is visible to the theorems above)
+example : Sandboxed_getitem ⟨.strSubclass, .err .keyError, .ok, false, true⟩ = .rawAttr ∧
+    Sandboxed_getattr ⟨.exactStr, .ok, .ok, false, true⟩ = .rawAttr ∧
+    Sandboxed_getitem ⟨.exactStr, .err .typeError, .ok, true, true⟩ = .fmtWrapper ∧
+    Base_getitem ⟨.strSubclass, .err .keyError, .ok, false, false⟩ = .rawAttr ∧
+    Base_getattr ⟨.exactStr, .ok, .ok, true, false⟩ = .rawAttr ∧
+    wrapReturnsNone ⟨["types.BuiltinMethodType"], []⟩ "upper" true = true ∧
+    wrapReturnsNone ⟨["types.BuiltinMethodType"], []⟩ "format" false = true := by decide +kernel
 
 -- non-vacuity
 example : Sandboxed_is_safe_attribute ⟨["type"], []⟩ "upper" = true ∧
